@@ -277,6 +277,12 @@ func (s *Session) Run(ctx context.Context, dir string, args ...string) error {
 							if err != nil {
 								return err
 							}
+							if len(bss) == 0 {
+								// No match.  (The matcher
+								// can report that as an
+								// empty, non-nil list.)
+								bss = nil
+							}
 							if bss != nil {
 								if 1 < len(bss) {
 									log.Printf("warning: multiple Bindingss")
